@@ -138,6 +138,8 @@ pub struct Rec {
     pub solo: bool,
     /// own scheduling steps the call took
     pub own_steps: u32,
+    /// in solo mode the call had to wait for a lock held by a frozen thread
+    pub solo_blocked: bool,
     /// phase marker: 0 = concurrent phase, 1 = quiescent probe, 2 = teardown
     pub phase: u8,
 }
@@ -201,6 +203,7 @@ pub fn invoke(task: usize, op: OpK, h: u32, stream: u32, val: u64, serial: u32) 
             back_serial: NONE,
             solo: false,
             own_steps: 0,
+            solo_blocked: false,
             phase,
         });
         hh.recs.len() - 1
